@@ -224,6 +224,7 @@ type worldCfg struct {
 	Min        *string // nil = unset
 	WMin       *string
 	Fee        string
+	FeeFresh   bool `json:"fee_returns_new_value,omitempty"` // the fee function returns the new total in a fresh value instead of changing its argument
 	Settle     bool
 	MaxHosts   int
 	wrap       func(store.Store) store.Store // optional interposer between the services and the driver
@@ -266,6 +267,9 @@ func newWorld(cfg worldCfg) *world {
 	if cfg.Fee != "" && cfg.Fee != "0" {
 		fee, _ := new(big.Int).SetString(cfg.Fee, 10)
 		w.pay.WithdrawFee = func(a *big.Int) *big.Int { return a.Sub(a, fee) }
+		if cfg.FeeFresh { // "returns the new total": both styles satisfy the documented signature
+			w.pay.WithdrawFee = func(a *big.Int) *big.Int { return new(big.Int).Sub(a, fee) }
+		}
 	}
 	if cfg.Settle {
 		w.pay.Settle = func(account store.Account, amount *big.Int, newBalance *big.Int) (string, error) {
